@@ -10,6 +10,7 @@ import tempfile
 from hypothesis import strategies as st
 
 from vlib import docs, repo, runner
+from vlib import recipes as R
 from vlib.jsonvals import canon, h64
 
 PID = "C09"
@@ -28,6 +29,12 @@ RULE = (
 )
 RULE += (
     ' The last driver process of every batch generates the documents in reverse order (same hash seed as the first): the output for a document must not depend on what the process generated before it.'
+)
+RULE += (
+    ' Every batch also carries 8 models declared with the DSL (generic recipes, and models that name required keys in both '
+    'documented ways at once - the `required` keyword and Property(required=True) flags - with 2..5 flagged properties); '
+    'a second driver builds them and digests serialize_json / serialize_python under every hash seed of the batch (the last '
+    'process in reverse order).'
 )
 ASSUMPTIONS = [
     "a finite set of hash seeds: covering set for the iteration orders of 3- and 4-element string sets among seeds 0..63, plus derived seeds",
@@ -127,7 +134,39 @@ def batches(draw):
             out.append(retitled(draw(st.sampled_from(out)), draw(st.integers(0, 5))))
         else:
             out.append(draw(docs.documents(docs.DCfg())))
-    return {"docs": out}
+    models = [draw(required_both_ways()) if i % 2 else draw(R.recipes(DSL_CFG)) for i in range(8)]
+    return {"docs": out, "recipes": models}
+
+
+DSL_DRIVER = os.path.join(os.path.dirname(DRIVER), "c09_dsl_driver.py")
+DSL_CFG = R.RCfg(depth=2, nothing=False)
+
+
+@st.composite
+def required_both_ways(draw):
+    """A model that names required keys through the `required` keyword AND through Property(required=True) flags (what a
+    parsed document never does: the parser turns the list into flags)."""
+    names = draw(st.lists(st.sampled_from(["name", "channel", "owner", "region", "build", "a", "b", "zz", "x1"]),
+                          min_size=2, max_size=5, unique=True))
+    listed = draw(st.lists(st.sampled_from(["version", "id"] + names[:1]), min_size=1, max_size=2, unique=True))
+    kind = draw(st.sampled_from(["Object", "Element"]))
+    node = {"id": 1, "kind": kind, "kw": {"required": listed}, "props": [
+        {"name": n, "source": None, "required": draw(st.integers(0, 4)) != 0,
+         "element": {"id": 10 + i, "kind": draw(st.sampled_from(["String", "Integer", "Element"])), "kw": {}}}
+        for i, n in enumerate(names)]}
+    if kind == "Object":
+        node["name"] = "Release"
+    return node
+
+
+def run_dsl_driver(path, seed, order="forward"):
+    env = dict(os.environ, PYTHONHASHSEED=str(seed))
+    env.pop("PYTHONPATH", None)
+    p = subprocess.run([PY, "-W", "ignore", DSL_DRIVER, os.path.dirname(os.path.dirname(DRIVER)), repo.REPO_DIR, path, order],
+                       stdout=subprocess.PIPE, stderr=subprocess.PIPE, env=env, timeout=600)
+    if p.returncode != 0:
+        raise runner.HarnessError(f"dsl driver failed under seed {seed}: {p.stderr.decode()[-800:]}")
+    return json.loads(p.stdout.decode())
 
 
 def run_driver(scratch, seed, order="forward"):
@@ -200,9 +239,31 @@ def predicate(case, stats, seed_salt=1):
                                   "doc": i, "replay_case": {"docs": case["docs"] if history else [doc]},
                                   "hash_seeds": [base_seed, s], "detail": [base[name], out[name]]})
                     break
+        # models declared with the DSL
+        if case.get("recipes"):
+            path = os.path.join(scratch, "recipes.json")
+            with open(path, "w") as fh:
+                json.dump(case["recipes"], fh)
+            dsl = [(s, run_dsl_driver(path, s, "reverse" if k == len(seeds) - 1 else "forward"))
+                   for k, s in enumerate(seeds)]
+            for i, recipe in enumerate(case["recipes"]):
+                flagged = sum(1 for p in recipe.get("props", []) if p.get("required"))
+                both = bool(recipe.get("kw", {}).get("required")) and flagged >= 2
+                stats.case(canon(recipe), both or len(R.index(recipe)) >= 4,
+                           ["dsl-model"] + (["required-listed-and-flagged"] if both else []), n=len(seeds),
+                           sample={"recipe": recipe})
+                for k, (s, out) in enumerate(dsl[1:], 1):
+                    if out[i] != dsl[0][1][i]:
+                        diff = [kk for kk in dsl[0][1][i] if dsl[0][1][i][kk] != out[i].get(kk)]
+                        fails.append({"sub": "dsl", "kind": "dsl-output-depends-on-hash-seed:" + "+".join(diff),
+                                      "replay_case": {"docs": [], "recipes": [recipe]}, "hash_seeds": [dsl[0][0], s],
+                                      "detail": [dsl[0][1][i], out[i]]})
+                        break
+            stats.extra["subprocesses"] = stats.extra.get("subprocesses", 0) + len(seeds)
         # the literal CLI on the first document
-        cli = [run_cli(os.path.join(scratch, "doc00", "a.json"), s) for s in (seeds[0], seeds[1], seeds[-2])]
-        if len({c for c in cli}) != 1:
+        cli = [run_cli(os.path.join(scratch, "doc00", "a.json"), s) for s in (seeds[0], seeds[1], seeds[-2])] \
+            if case["docs"] else []
+        if len({c for c in cli}) > 1:
             fails.append({"sub": "cli", "kind": "cli-stdout-depends-on-hash-seed", "doc": 0,
                           "replay_case": {"docs": [case["docs"][0]]}, "hash_seeds": [seeds[0], seeds[1], seeds[-2]]})
         stats.extra["subprocesses"] = stats.extra.get("subprocesses", 0) + len(seeds) + 3
